@@ -213,6 +213,13 @@ theorem replace_then_cancel (q : List Owner) (es : List Edit) (hwf : QWF q) (hok
     (es.foldl Edit.apply { q := q }).cancel = q :=
   cancel_restores es { q := q } hwf hok
 
+/-- … and the order in which the hooks run is part of it: the very same hooks run oldest first leave the waiter in front
+    of the owner (a newcomer replaces an owner that has one waiter behind it; the transaction is cancelled) -/
+theorem cancel_order_matters :
+    let q : List Owner := [{ conn := 1, allowRepl := true, noQueue := false }, { conn := 2, allowRepl := false, noQueue := false }]
+    let t : QTx := [Edit.add 3 2, Edit.swap].foldl Edit.apply { q := q }
+    t.cancel = q ∧ t.hooks.reverse.foldl undo t.q ≠ q := by decide
+
 /-! ### the edits without a hook (recorded findings) -/
 
 /-- **F22**: a RequestName by a connection already in the queue changes its entry in place and leaves
